@@ -543,6 +543,7 @@ class Routine(TimeThread, Stream):
                     'cannot be reset within itself except by YieldAndReset')
             else:
                 self._iterator = None
+                self._terminal_value = self._SENTINEL
                 self._clock = clk.SystemClock  # Default clock.
                 self.state = self.State.Init
 
